@@ -320,7 +320,5 @@ Dump ==
        fmtKeys |-> rec.fmt,
        infoCounts |-> [i \in 1..Len(rec.info) |-> [k |-> rec.info[i].k, n |-> Len(rec.info[i].v),
                                                    missing |-> (rec.info[i].v # <<>> /\ AllDots(rec.info[i].v))]],
-       fmtCounts |-> [s \in 1..NS3 |-> [i \in 1..Len(rec.fmt) |-> [k |-> rec.fmt[i], n |-> Len(rec.samples[s][i]),
-                                                   missing |-> AllDots(rec.samples[s][i])]]],
        gts |-> rec.gts])>>)
 =============================================================================
